@@ -278,5 +278,12 @@ func c11(r *h.Result, rng *h.Rng, tier string, replay string) error {
 	if err := c11Portions(rng.Fork(), r, np, nil); err != nil {
 		return err
 	}
+	// extension c11y
+	if err := c11Units(rng.Fork(), r, n); err != nil {
+		return err
+	}
+	if err := c11Heap(rng.Fork(), r, n/2); err != nil {
+		return err
+	}
 	return nil
 }
